@@ -239,11 +239,13 @@ def step (st : St) : Label → Option St
     if st.bg != .posted then none else some { st with bg := .working }
   | .bgMid flushDone bcast err =>
     if st.bg != .working then none
-    -- no work is done after an error.  Shutdown does not stop a job at once: a flush whose MANIFEST write was in flight when
+    -- Shutdown does not stop a job at once: a flush whose MANIFEST write was in flight when
     -- `close` set shutting_down still installs its result (db_impl.c:1151 tests the flag only before ldb_versions_apply), and a
     -- compaction records the error "deleting DB during compaction" at its next test (db_impl.c:1441, 1478); either way the
     -- job then runs into `bgFinish`
-    else if st.bgError then none
+    -- the same holds for a background error recorded meanwhile by a writer (failed log write): a flush whose MANIFEST write
+    -- is in flight still installs its result.  An error is recorded at most once (ldb_record_background_error keeps the first).
+    else if st.bgError && err then none
     else if flushDone && !st.imm then none
     else
       let st := if flushDone then { st with imm := false } else st
